@@ -667,6 +667,7 @@ func (b *bess) endMarkerSendLoop(endMarkerChan chan []byte) {
 
 func (b *bess) notifyListen(reportNotifyChan chan<- uint64) {
 	notifier := NewDownlinkDataNotifier(reportNotifyChan, 20*time.Second)
+	verifPoint("ddn.notifier", notifier)
 
 	for {
 		buf := make([]byte, 512)
